@@ -146,8 +146,29 @@ def run(ctx):
     for name in m2s:
         if name == "cyc":
             continue
-        ds = [a for a in fx.find(domain="comb") if a.t.endswith(f"[1].{name}") and a.t.startswith("slaves[")]
-        ok = len(ds) == 1 and ds[0].v == f"master.{name}" and not ds[0].guards and any(it in ("slaves", "enumerate(slaves)") for _, it in ds[0].loops)
+        def _bus_of_every_slave(a, name=name):
+            """the target is field `name` of the bus of the slave a loop over `slaves` is at: slaves[i][1].f / slave[1].f / bus.f with
+            `for _, bus in slaves` (any destructuring whose last element names the bus)"""
+            if not a.t.endswith("." + name):
+                return False
+            base = a.t[:-len(name) - 1]
+            for var, it in a.loops:
+                if it not in ("slaves", "enumerate(slaves)"):
+                    continue
+                try:
+                    vn = ast.parse(var, mode="eval").body
+                except SyntaxError:
+                    continue
+                inner = vn.elts[-1] if it == "enumerate(slaves)" and isinstance(vn, ast.Tuple) else vn
+                if isinstance(inner, ast.Tuple) and len(inner.elts) == 2 and norm(inner.elts[1]) == base:
+                    return True
+                if isinstance(inner, ast.Name) and base == f"{inner.id}[1]":
+                    return True
+                if base.startswith("slaves[") and base.endswith("][1]"):
+                    return True
+            return False
+        ds = [a for a in fx.find(domain="comb") if _bus_of_every_slave(a)]
+        ok = len(ds) == 1 and ds[0].v == f"master.{name}" and not ds[0].guards
         ctx.ob("W2", WB, "Decoder", f"{name} forwarded to every slave", ok,
                "" if ok else f"master.{name} is not forwarded to all slaves ({[a.v for a in ds]})", ds[0].line if ds else 0)
     for name in ("ack", "err"):
